@@ -26,8 +26,9 @@ Proof. unfold check_C06, C06_holds. rewrite andb_true_iff, forallb_forall. intro
   - intros r Hr. apply run_holdsb_sound; auto. Qed.
 
 Theorem model_C06_holds i : wf_schemab (fst i) = true -> wf_schemab (snd i) = true ->
-  defaults_ok (fst i) = true -> defaults_ok (snd i) = true -> fk_names_ok (fst i) (snd i) = true -> C06_holds i (model_C06 i).
-Proof. destruct i as [A B]. simpl. intros HA HB HdA HdB Hnm. unfold C06_holds, model_C06. simpl. split; [reflexivity|].
+  defaults_ok (fst i) = true -> defaults_ok (snd i) = true -> fk_names_ok (fst i) (snd i) = true ->
+  no_unnamed_uq (fst i) = true -> no_unnamed_uq (snd i) = true -> C06_holds i (model_C06 i).
+Proof. destruct i as [A B]. simpl. intros HA HB HdA HdB Hnm HuA HuB. unfold C06_holds, model_C06. simpl. split; [reflexivity|].
   intros r Hr.
   assert (Hg: exists g, r = model_run A B g) by (repeat (destruct Hr as [<-|Hr]; [eexists; reflexivity|]); inversion Hr).
   destruct Hg as [g ->]. unfold run_holds, model_run, model_apply. simpl. split; [apply diff_quiet; auto|].
@@ -35,7 +36,7 @@ Proof. destruct i as [A B]. simpl. intros HA HB HdA HdB Hnm. unfold C06_holds, m
 
 Lemma inclass_C06_wf i : inclass_C06 i = true ->
   wf_schemab (fst i) = true /\ wf_schemab (snd i) = true /\ defaults_ok (fst i) = true /\ defaults_ok (snd i) = true
-  /\ fk_names_ok (fst i) (snd i) = true.
+  /\ fk_names_ok (fst i) (snd i) = true /\ no_unnamed_uq (fst i) = true /\ no_unnamed_uq (snd i) = true.
 Proof. unfold inclass_C06, inclass_C06_core. rewrite !andb_true_iff. tauto. Qed.
 Lemma inclass_C06_core_wf i : inclass_C06_core i = true -> wf_schemab (fst i) = true /\ wf_schemab (snd i) = true.
 Proof. unfold inclass_C06_core. rewrite !andb_true_iff. tauto. Qed.
